@@ -292,6 +292,60 @@ class Iter(V):
         return hash(("iter", self.len, self.enumerated, self.kind, self.chunk, self.items, self.maps))
 
 
+class Term(V):
+    """an uninterpreted value with identity: an opaque input (`in`, name) or the result of an uninterpreted operation on
+    other values (provenance of instants, durations, addresses ...)"""
+    __slots__ = ("op", "a")
+
+    def __init__(self, op, *a):
+        self.op = op
+        self.a = tuple(a)
+
+    def vars(self, acc):
+        for x in self.a:
+            if isinstance(x, V):
+                x.vars(acc)
+            elif isinstance(x, Lin):
+                acc.update(x.t)
+
+    def __repr__(self):
+        return "%s(%s)" % (self.op, ", ".join(repr(x) for x in self.a))
+
+    def __eq__(self, o):
+        return isinstance(o, Term) and self.op == o.op and self.a == o.a
+
+    def __hash__(self):
+        return hash(("term", self.op, self.a))
+
+
+class Trace(V):
+    """ordered list of abstract events observed on a path (ghost)"""
+    __slots__ = ("ev",)
+
+    def __init__(self, ev=()):
+        self.ev = tuple(ev)
+
+    def add(self, e):
+        return Trace(self.ev + (e,))
+
+    def vars(self, acc):
+        for e in self.ev:
+            for x in e:
+                if isinstance(x, V):
+                    x.vars(acc)
+                elif isinstance(x, Lin):
+                    acc.update(x.t)
+
+    def __repr__(self):
+        return "Trace%r" % (self.ev,)
+
+    def __eq__(self, o):
+        return isinstance(o, Trace) and self.ev == o.ev
+
+    def __hash__(self):
+        return hash(("trace", self.ev))
+
+
 class FnV(V):
     """a function item value"""
     __slots__ = ("key",)
